@@ -387,6 +387,63 @@ pub fn eval_expr(e: &Expr, root: &RVal, current: &RVal) -> Tri {
     }
 }
 
+fn is_arith(e: &Expr) -> bool {
+    matches!(e, Expr::ArithUnary(..) | Expr::ArithBinary(..))
+}
+
+/// does evaluating `steps` certainly have to evaluate an arithmetic expression for some item?
+fn steps_reach<'a>(steps: &[Step], root: &'a RVal, current: &'a RVal) -> bool {
+    let start: &'a RVal = if matches!(steps.first(), Some(Step::Current)) { current } else { root };
+    let mut cur: Seq<'a> = vec![(start, true)];
+    for s in steps {
+        if let Step::Filter(e) | Step::Predicate(e) = s {
+            if cur.iter().any(|(v, c)| *c && expr_reach(e, root, v)) {
+                return true;
+            }
+        }
+        cur = apply_step(s, cur, root);
+    }
+    false
+}
+
+fn expr_reach(e: &Expr, root: &RVal, cur: &RVal) -> bool {
+    // does this operand certainly yield at least one value (so that a comparison has to be made)?
+    let yields = |x: &Expr| match x {
+        Expr::Lit(_) => true,
+        Expr::Paths(p) => !steps_have_arith(p) && find(p, root, cur).iter().any(|(_, c)| *c),
+        _ => false,
+    };
+    let operand = |x: &Expr| match x {
+        Expr::Paths(p) => steps_reach(p, root, cur),
+        _ => false,
+    };
+    match e {
+        Expr::ArithUnary(..) | Expr::ArithBinary(..) => true,
+        Expr::Cmp(_, l, r) => {
+            if is_arith(l) && is_arith(r) {
+                true
+            } else if is_arith(l) {
+                yields(r)
+            } else if is_arith(r) {
+                yields(l)
+            } else {
+                operand(l) || operand(r)
+            }
+        }
+        // whether the second operand of a connective is evaluated is not documented
+        Expr::And(..) | Expr::Or(..) => false,
+        Expr::Exists(p) | Expr::Paths(p) => steps_reach(p, root, cur),
+        Expr::Lit(_) => false,
+    }
+}
+
+/// For a path with arithmetic: is there an item for which the evaluator certainly has to evaluate
+/// the arithmetic expression?  (Then "a path the evaluator cannot handle is reported as an error"
+/// applies; otherwise nothing may ever reach the expression and the outcome is not determined.)
+pub fn arith_must_be_evaluated(path: &JPath, doc: &RVal) -> bool {
+    steps_reach(&path.0, doc, doc)
+}
+
 pub fn eval(path: &JPath, doc: &RVal) -> EvalResult {
     if steps_have_arith(&path.0) {
         return EvalResult::Unsupported;
